@@ -99,10 +99,10 @@ def run(ctx):
                 "mode, kill point, torn length)")
     ctx.assumptions = ["process kill only (no power loss)", "one interrupted operation at a time"]
     ctx.exhaustive = not ctx.quick   # quick thins the torn lengths of some scenarios (see step below)
-    work = ctx.new_dir("work")
     scs, newdata = scenarios(ctx, rng)
     bucket_states = set()
     for si, sc in enumerate(scs):
+        work = ctx.new_dir(f"work{si}")
         tdir = os.path.join(work, f"t{si}")
         os.makedirs(tdir)
         crash.build_template(ctx, sc, tdir)
@@ -177,7 +177,7 @@ def run(ctx):
                     if c2 != cache:
                         ctx.rm(os.path.dirname(c2))
             ctx.rm(rdir)
-        ctx.rm(tdir)
+        ctx.rm(work)
     ctx.extra["distinct_bucket_byte_strings"] = len(bucket_states)
     ctx.extra["scenarios"] = [f"{s.name}@{s.mode}" for s in scs]
 
